@@ -1763,4 +1763,229 @@ theorem np_renameLoop (cfg : Cfg) : ∀ (rs : List Ren) (perf : List (Path × Pa
       exact np_bind (np_logM cfg) (fun _ => np_bind (np_rollbackM cfg _) (fun _ => np_throw e he))
     · exact np_bind (np_logM cfg) (fun _ => np_bind (np_rollbackM cfg _) (fun _ => np_throw e he))
 
+-- the lock file published by hard link ----------------------------------------------------------------------------------
+
+/-- what the lock path can hold while `acquire` runs: what it held before (`l0`), nothing, or the COMPLETE content -/
+def LockStates (l0 : Option Node) (t : Tree) : Prop :=
+  lookup t pLock = l0 ∨ lookup t pLock = none ∨ ∃ m, lookup t pLock = some (.file lockText m)
+
+theorem lockTmp_ne : pLockTmp ≠ pLock := by decide
+
+theorem lockStates_frame {l0 : Option Node} {t t' : Tree} {x : Path} (h : LockStates l0 t) (hf : Frame x t t')
+    (hx : x ≠ pLock) : LockStates l0 t' := by
+  unfold LockStates at *
+  rw [hf pLock (fun h => hx h.symm)]
+  exact h
+
+theorem mkdir_frame {t t' : Tree} {q x : Path} (hq : q ≠ x) (h : execOp t (.mkdir q) = .ok t') :
+    lookup t' x = lookup t x := by
+  simp only [execOp] at h
+  cases hp : parentOk t q with
+  | error e => simp [hp] at h
+  | ok u =>
+    simp only [hp] at h
+    by_cases he : exists_ t q = true
+    · simp [he] at h
+    · simp only [he, Bool.false_eq_true, if_false] at h
+      cases h
+      rw [lookup_append_single]
+      cases lookup t x with
+      | some n => rfl
+      | none => simp [hq]
+
+def MkdirStableUpTo (n : Nat) (I : Tree → Prop) : Prop :=
+  ∀ t t' q, q.length ≤ n → I t → execOp t (.mkdir q) = .ok t' → I t'
+
+theorem safe_mkdir_try' {n : Nat} {I : Tree → Prop} (hI : MkdirStableUpTo n I) (q : Path) (hq : q.length ≤ n) :
+    Safe I I (tryOp (.mkdir q)) (fun _ t => I t) := by
+  refine safe_weaken (safe_tryOp (Q := fun _ t => I t) (safe_doOp _ (fun _ h => h) ?_ ?_)) (fun _ h => h) ?_
+  · intro t t' hi he; exact ⟨hI _ _ _ hq hi he, hI _ _ _ hq hi he⟩
+  · intro t hi
+    rw [partialOp_not_write _ _ (by intro p c h; cases h)]
+    exact hi
+  · intro r t h; cases r <;> exact h
+
+theorem safe_mkdirUp' {n : Nat} {I : Tree → Prop} (hI : MkdirStableUpTo n I) : ∀ (fuel : Nat) (p : Path),
+    p.length ≤ n → Safe I I (mkdirUp fuel p) (fun l t => I t ∧ ∀ q ∈ l, q.length ≤ n) := by
+  intro fuel
+  induction fuel with
+  | zero => intro p _; unfold mkdirUp; exact safe_pure _ (fun _ h => ⟨h, by simp⟩)
+  | succ k ih =>
+    intro p hpn
+    unfold mkdirUp
+    by_cases hp : p.isEmpty = true
+    · simp only [hp, if_true]; exact safe_pure _ (fun _ h => ⟨h, by simp⟩)
+    · simp only [hp, Bool.false_eq_true, if_false]
+      refine safe_bind (safe_mkdir_try' hI p hpn) (fun r => ?_)
+      cases r with
+      | none => exact safe_pure _ (fun _ h => ⟨h, by simp⟩)
+      | some e =>
+        have hdl : p.dropLast.length ≤ n := by simp; omega
+        cases e <;> first
+          | exact safe_throw _ (fun _ h => h)
+          | (refine safe_bind (ih _ hdl) (fun rest => ?_)
+             refine safe_pure _ ?_
+             intro t h
+             refine ⟨h.1, ?_⟩
+             intro q hq
+             rcases List.mem_cons.mp hq with h1 | h1
+             · rw [h1]; exact hpn
+             · exact h.2 q h1)
+          | (refine safe_bind safe_getTree (fun a => ?_)
+             by_cases hd : isDir a p = true
+             · simp only [hd, if_true]; exact safe_pure _ (fun _ h => ⟨h.2, by simp⟩)
+             · simp only [hd, Bool.false_eq_true, if_false]; exact safe_throw _ (fun _ h => h.2))
+
+theorem safe_mkdirDown' {n : Nat} {I : Tree → Prop} (hI : MkdirStableUpTo n I) : ∀ (l : List Path),
+    (∀ q ∈ l, q.length ≤ n) → Safe I I (mkdirDown l) (fun _ t => I t) := by
+  intro l
+  induction l with
+  | nil => intro _; unfold mkdirDown; exact safe_pure _ (fun _ h => h)
+  | cons p ps ih =>
+    intro hl
+    have hps : ∀ q ∈ ps, q.length ≤ n := fun q hq => hl q (List.mem_cons_of_mem _ hq)
+    unfold mkdirDown
+    refine safe_bind (safe_mkdir_try' hI p (hl p List.mem_cons_self)) (fun r => ?_)
+    cases r with
+    | none => exact ih hps
+    | some e =>
+      cases e <;> first
+        | exact safe_throw _ (fun _ h => h)
+        | (refine safe_bind safe_getTree (fun a => ?_)
+           by_cases hd : isDir a p = true
+           · simp only [hd, if_true]; exact safe_weaken (ih hps) (fun _ h => h.2) (fun _ _ h => h)
+           · simp only [hd, Bool.false_eq_true, if_false]; exact safe_throw _ (fun _ h => h.2))
+
+theorem safe_mkdirs' {n : Nat} {I : Tree → Prop} (hI : MkdirStableUpTo n I) (p : Path) (hp : p.length ≤ n) :
+    Safe I I (mkdirs p) (fun _ t => I t) := by
+  unfold mkdirs
+  refine safe_bind (safe_mkdirUp' hI _ p hp) (fun l => ?_)
+  refine safe_assume (∀ q ∈ l, q.length ≤ n) (fun _ h => h.2) (fun hl => ?_)
+  refine safe_weaken (safe_mkdirDown' hI l.reverse (fun q hq => hl q (List.mem_reverse.mp hq))) (fun _ h => h.1)
+    (fun _ _ h => h)
+
+theorem link_ok {t t' : Tree} {a b : Path} (h : execOp t (.link a b) = .ok t') :
+    (∃ c m, lookup t a = some (.file c m) ∧ lookup t' b = some (.file c m)) ∧ Frame b t t' := by
+  simp only [execOp] at h
+  cases hla : lookup t a with
+  | none => simp [hla] at h
+  | some n =>
+    cases n with
+    | dir m => simp [hla] at h
+    | link x => simp [hla] at h
+    | file c m =>
+      simp only [hla] at h
+      cases hp : parentOk t b with
+      | error e => simp [hp] at h
+      | ok u =>
+        simp only [hp] at h
+        by_cases he : exists_ t b = true
+        · simp [he] at h
+        · simp only [he, Bool.false_eq_true, if_false] at h
+          cases h
+          have hnone : lookup t b = none := by
+            unfold exists_ at he
+            cases hl : lookup t b with
+            | none => rfl
+            | some x => simp [hl] at he
+          refine ⟨⟨c, m, rfl, lookup_snoc_self _ _ _ hnone⟩, ?_⟩
+          intro q hq
+          rw [lookup_append_single]
+          cases lookup t q with
+          | some x => rfl
+          | none =>
+            have : ¬ b = q := fun h => hq h.symm
+            simp [this]
+
+/-- `acquire` in the publish-by-hard-link variant, under EVERY fault and crash point: the lock path holds what it
+    held before, nothing, or the complete content — it is never observed empty or half written -/
+theorem safe_acquire_link (stale cleans : Bool) (l0 : Option Node) :
+    Safe (LockStates l0) (fun t => lookup t pLock = l0) (acquireF true stale cleans) (fun _ t => LockStates l0 t) := by
+  have hR : ∀ t, lookup t pLock = l0 → LockStates l0 t := fun _ h => Or.inl h
+  have hst : MkdirStableUpTo 1 (LockStates l0) := by
+    intro t t' q hq hi he
+    have hne : q ≠ pLock := by
+      intro h; rw [h] at hq; simp [pLock] at hq
+    unfold LockStates at *
+    rw [mkdir_frame hne he]
+    exact hi
+  unfold acquireF
+  -- remove an old lock file (or leave it)
+  refine safe_bind (Q := fun _ t => LockStates l0 t) ?_ (fun _ => ?_)
+  · unfold removeOldLock
+    refine safe_bind safe_getTree (fun a => ?_)
+    have hunlink : Safe (LockStates l0) (fun t => a = t ∧ lookup t pLock = l0) (doOp (.unlink pLock))
+        (fun _ t => LockStates l0 t) := by
+      refine safe_doOp _ (fun t h => hR _ h.2) ?_ ?_
+      · intro t t' _ he
+        simp only [execOp] at he
+        have hn : lookup t' pLock = none := by
+          cases hl : lookup t pLock with
+          | none => simp [hl] at he
+          | some n =>
+            cases n with
+            | dir m => simp [hl] at he
+            | file c m => simp only [hl] at he; cases he; rw [lookup_removeKey]; simp
+            | link x => simp only [hl] at he; cases he; rw [lookup_removeKey]; simp
+        exact ⟨Or.inr (Or.inl hn), Or.inr (Or.inl hn)⟩
+      · intro t h
+        rw [partialOp_not_write _ _ (by intro p c h; cases h)]
+        exact hR _ h.2
+    cases lookup a pLock with
+    | none => exact safe_pure () (fun t h => hR _ h.2)
+    | some n =>
+      cases n with
+      | dir m => exact safe_pure () (fun t h => hR _ h.2)
+      | link x => exact safe_pure () (fun t h => hR _ h.2)
+      | file c m =>
+        by_cases hc : (!c.isEmpty || stale) = true
+        · simp only [hc, if_true]; exact hunlink
+        · simp only [hc, Bool.false_eq_true, if_false]; exact safe_pure () (fun t h => hR _ h.2)
+  refine safe_bind (safe_mkdirs' hst pR (by simp [pR])) (fun _ => ?_)
+  simp only [if_true]
+  -- write the private temp file
+  refine safe_bind (Q := fun _ t => LockStates l0 t ∧ ∃ m, lookup t pLockTmp = some (.file [] m))
+    (safe_doOp _ (fun _ h => h) ?_ ?_) (fun _ => ?_)
+  · intro t t' h he
+    obtain ⟨hfr, _, htr⟩ := frame_openw he
+    have := lockStates_frame h hfr lockTmp_ne
+    exact ⟨⟨this, htr rfl⟩, this⟩
+  · intro t h
+    rw [partialOp_not_write _ _ (by intro p c h; cases h)]
+    exact h
+  refine safe_bind (Q := fun _ t => LockStates l0 t ∧ ∃ m, lookup t pLockTmp = some (.file lockText m)) ?_ (fun _ => ?_)
+  · unfold writeAll
+    have hne : lockText.isEmpty = false := by decide
+    simp only [hne, Bool.false_eq_true, if_false]
+    refine safe_doOp _ (fun _ h => h.1) ?_ ?_
+    · intro t t' ⟨h, m, hl⟩ he
+      obtain ⟨hfr, c1, m1, h0, h1⟩ := frame_write he
+      rw [hl] at h0; cases h0
+      have := lockStates_frame h hfr lockTmp_ne
+      exact ⟨⟨this, m, by simpa using h1⟩, this⟩
+    · intro t ⟨h, _⟩
+      exact lockStates_frame h (frame_partial_write t pLockTmp lockText) lockTmp_ne
+  -- publish it
+  refine safe_bind (Q := fun _ t => LockStates l0 t) ?_ (fun r => ?_)
+  · refine safe_weaken (safe_tryOp (Q := fun _ t => LockStates l0 t) (safe_doOp _ (fun _ h => h.1) ?_ ?_)) (fun _ h => h) ?_
+    · intro t t' ⟨h, m, hl⟩ he
+      obtain ⟨⟨c, m', ha, hb⟩, _⟩ := link_ok he
+      rw [hl] at ha; cases ha
+      have : LockStates l0 t' := Or.inr (Or.inr ⟨m, hb⟩)
+      exact ⟨this, this⟩
+    · intro t ⟨h, _⟩
+      rw [partialOp_not_write _ _ (by intro p c h; cases h)]
+      exact h
+    · intro r t h; cases r <;> exact h
+  refine safe_bind (Q := fun _ t => LockStates l0 t) (safe_ignoreErr (safe_doOp _ (fun _ h => h) ?_ ?_)) (fun _ => ?_)
+  · intro t t' h he
+    have := lockStates_frame h (frame_unlink he) lockTmp_ne
+    exact ⟨this, this⟩
+  · intro t h
+    rw [partialOp_not_write _ _ (by intro p c h; cases h)]
+    exact h
+  cases r with
+  | none => exact safe_pure () (fun _ h => h)
+  | some e => exact safe_throw _ (fun _ h => h)
+
 end ExecL
